@@ -68,8 +68,11 @@ def run(ctx):
     for e in common.known_findings().get("known", []):
         if e.get("property") == "C04" and "repro" in e:
             r = e["repro"]
-            from ase.build import mx2
-            src = mx2(r["formula"], kind=r["kind"], a=r["a"], thickness=r["thickness"], vacuum=r["vacuum"])
+            from ase.build import mx2, graphene
+            if r.get("builder") == "graphene":
+                src = graphene(a=r["a"], vacuum=r["vacuum"])
+            else:
+                src = mx2(r["formula"], kind=r["kind"], a=r["a"], thickness=r["thickness"], vacuum=r["vacuum"])
             src.set_pbc([True, True, False])
             extra_inputs.append((src.repeat((r["repeat"][0], r["repeat"][1], 1)), {"crystal": r["crystal"], "kind": "monolayer", "repeat": r["repeat"], "known_finding_input": True}, src, r["seed"]))
     # systematic part: every monolayer material as 3x3 and 3x4 supercell, started from seeds 0..5 (small and cheap)
@@ -79,6 +82,14 @@ def run(ctx):
         for rep in ((3, 3), (3, 4)):
             for sd in range(ctx.n(6, 16)):
                 extra_inputs.append((src.repeat((rep[0], rep[1], 1)), {"crystal": name, "kind": "monolayer", "repeat": list(rep), "systematic": True, "reseeded": True}, src, sd))
+    # anisotropic supercells: a long cell vector BEFORE a short one and the other way round (the short periodic vector is itself a candidate
+    # span; its image index must be the index of the cell axis)
+    for name, make, _ in monos:
+        src = make()
+        src.set_pbc([True, True, False])
+        for rep in ((5, 1), (1, 5)):
+            for sd in range(ctx.n(2, 6)):
+                extra_inputs.append((src.repeat((rep[0], rep[1], 1)), {"crystal": name, "kind": "monolayer", "repeat": list(rep), "systematic": True, "anisotropic": True}, src, sd))
     target += len(extra_inputs)
     # slabs of crystals with several atoms per primitive cell and low-symmetry cuts (where the construction of the prototype cell
     # from "- span" neighbours and across in-plane cell boundaries is exercised), each in a seeded presentation
@@ -159,6 +170,10 @@ def run(ctx):
             if False:
                 pass
                 assemble_errors.extend(prec.assemble_errors)
+            if not clusters:
+                bad.append({"desc": desc, "complaint": "get_clusters returned no cluster at all", "all": ["no cluster"],
+                            "signature": "no-cluster;repeat=%s" % "x".join(str(v) for v in desc.get("repeat", [])), "atoms": crystals.atoms_to_json(a)})
+                continue
             big = max(clusters, key=lambda c: len(c.indices))
             cell = big.get_cell()
             got = analysis(cell, tol)
